@@ -97,6 +97,8 @@ class S3LockProviderBase(LockProvider):
         # Guarded by _state_lock: accessed from both the owner and heartbeat threads.
         self._etag: Optional[str] = None
         self._state_lock = threading.Lock()
+        # Renewal counter written into the lock body (see S3LockProvider._renew_once).
+        self._renewals = 0
 
     def _owns(self, content: str) -> bool:
         """Whether lock-object content names this instance as the owner.
@@ -327,7 +329,7 @@ class S3LockProvider(S3LockProviderBase):
         # hash of the body, so re-writing the bare lock_id left the ETag as it
         # was, and a breaker that had seen the lease lapsed at its HEAD could not
         # notice - through If-Match - a renewal landing before its takeover PUT.
-        self._renewals = getattr(self, "_renewals", 0) + 1
+        self._renewals += 1
         body = f"{self.lock_id}:{self._renewals}"
         try:
             resp = self.s3.put_object(
@@ -341,12 +343,46 @@ class S3LockProvider(S3LockProviderBase):
             logger.debug(f"Renewed S3 lock at {self.key}")
         except botocore.exceptions.ClientError as e:
             error_code = e.response.get('Error', {}).get('Code', '')
-            if error_code in ('PreconditionFailed', '412', 'ConditionalRequestConflict', '404',
-                              'NoSuchKey'):
-                logger.warning(f"Lost S3 lock at {self.key} (stolen or expired). Stopping heartbeat.")
+            if error_code in ('404', 'NoSuchKey'):
+                logger.warning(f"Lost S3 lock at {self.key} (deleted). Stopping heartbeat.")
                 self.is_locked = False
             else:
-                logger.warning(f"Failed to renew S3 lock: {e}")
+                # 412, or an error after which the PUT may still have landed.
+                # Every renewal changes the ETag, so a renewal whose RESPONSE
+                # was lost (or that the SDK re-sent and that then met its own
+                # first attempt) leaves _etag stale: the lock is still ours, but
+                # the next renewal would fail with 412 and we would abandon a
+                # lock object we own until its lease lapses. Re-read before
+                # judging.
+                self._resync_after_failed_renewal(e)
+        except Exception as e:
+            self._resync_after_failed_renewal(e)
+
+    def _resync_after_failed_renewal(self, cause: Exception) -> None:
+        """After a failed/ambiguous renewal: still ours -> adopt the object's
+        ETag; somebody else's or gone -> the lock is lost."""
+        import botocore.exceptions
+
+        try:
+            resp = self.s3.get_object(Bucket=self.bucket, Key=self.key)
+            content = resp['Body'].read().decode('utf-8')
+        except botocore.exceptions.ClientError as e:
+            if e.response.get('Error', {}).get('Code', '') in ('404', 'NoSuchKey'):
+                logger.warning(f"Lost S3 lock at {self.key} (deleted). Stopping heartbeat.")
+                self.is_locked = False
+            else:
+                logger.warning(f"Failed to renew S3 lock ({cause}); re-read failed too: {e}")
+            return
+        except Exception as e:
+            logger.warning(f"Failed to renew S3 lock ({cause}); re-read failed too: {e}")
+            return
+        if self._owns(content):
+            with self._state_lock:
+                self._etag = resp.get('ETag')
+            logger.warning(f"S3 lock renewal failed ({cause}); lock still ours, ETag re-synchronised")
+        else:
+            logger.warning(f"Lost S3 lock at {self.key} (stolen or expired). Stopping heartbeat.")
+            self.is_locked = False
 
 
 class S3PollingLockProvider(S3LockProviderBase):
